@@ -405,6 +405,12 @@ def check(idx: Index, rep: Report, tier: str) -> str:
                     r4.ok(inst, f"{loc} (e * k) {kind} c folded under k % c == 0")
                 else:
                     r4.fail(inst, Finding("C26.R4", m.fq, f"divisibility-reversed:{kind}", f"`{unparse(rt)}` folds (e * k) {kind.lower()} c under `{divis[0].group(0)}`; the identity holds when the multiplier is a multiple of the divisor (`k % c == 0`), not when the divisor is a multiple of the multiplier: (d0 * 2) mod 4 is not 0", loc))
+            elif kind == "Mod" and divis and ("self.kind == AffineBinaryOpKind.Mod", True) in facts and t in (f"self.lhs % {other}", f"AffineBinaryOpExpr(AffineBinaryOpKind.Mod, self.lhs, {other})", f"self.lhs.__mod__({other})"):
+                a, b = divis[0].group(1), divis[0].group(2)
+                if (a, b) == ("self.rhs.value", f"{other}.value"):
+                    r4.ok(inst, f"{loc} (e mod a) mod b = e mod b under a % b == 0")
+                else:
+                    r4.fail(inst, Finding("C26.R4", m.fq, "divisibility-reversed:Mod-of-Mod", f"`{unparse(rt)}` folds (e mod a) mod b to e mod b under `{divis[0].group(0)}`; the identity needs the inner modulus to be a multiple of the outer one (`a % b == 0`): (d0 mod 2) mod 4 is d0 mod 2, not d0 mod 4", loc))
             else:
                 raise AnalysisError(f"{m.fq}: `{unparse(rt)}` is a construction-time simplification that is not in the reviewed identity table")
 
